@@ -302,6 +302,32 @@ def run(ctx):
             cid += 1
             run_pipeline(ctx, srv, tr, cid, [tpl(h), [b'ECHO', g.marker()], [b'UNSUBSCRIBE']], [])
             cases += 1
+    # LONG names and arguments whose multi-byte or invalid UTF-8 sequences straddle the lengths at which a reply might shorten
+    # what it echoes (64, 128, 256 ... bytes): whatever the error text does with the request's bytes, one error reply comes back
+    # and the next request is answered
+    echoing = [templates[i] for i in (0, 1, 2, 5, 6, 7, 9, 12, 13)]
+    tails = [b'\xe2\x82\xac', b'\xff', b'\xc3\xa9', b'\xf0\x9f\x98\x80']
+    lens = [128] if ctx.quick else [32, 64, 128, 256, 512, 1024, 4096]
+    nlong = 0
+    for L in lens:
+        for off in range(L - 9, L + 1):
+            for t in (tails[(ctx.seed + off) % 4::2] if ctx.quick else tails):
+                h = b'N' * off + t + b'zz'
+                for tpl in echoing:
+                    cid += 1
+                    run_pipeline(ctx, srv, tr, cid, [tpl(h), [b'ECHO', g.marker()]], [])
+                    cases += 1
+                    nlong += 1
+                if not srv.alive():
+                    break
+    ctx.extra_cov['long_hostile_pipelines'] = nlong
+    if not srv.alive():
+        tr.emit({'k': 'crash', 'status': srv.exit_status()})
+        ctx.validate(tr, label='pipe-long')
+        srv.restart()
+        tr = ctx.new_trace('pipe')
+        s0 = Session(srv, tr)
+        c0 = s0.open(); s0.cmd(c0, [b'FLUSHALL']); s0.close(c0)
     # exhaustive single cut positions of one fixed pipeline
     fixed = [[b'SET', b'k', b'v1'], [b'GET', b'l'], [b'NOSUCH'], [b'ECHO', b'a\r\nb'], [b'GET', b'k']]
     n = sum(len(resp.enc_cmd(a)) for a in fixed)
